@@ -120,9 +120,14 @@ def tourn_case(ctx, rep, rng, lines, meta):
     samples = []
     o_choice = np.random.choice
 
+    protocol = {"ok": True}
+
     def w_choice(a, size=None, replace=True, p=None):
         res = o_choice(a, size, replace, p)
-        samples.append([next(i for i, c in enumerate(pop) if c is m) for m in res])
+        try:
+            samples.append([next(i for i, c in enumerate(pop) if c is m) for m in res])
+        except (StopIteration, TypeError):
+            protocol["ok"] = False          # the operator no longer samples the population itself: draw logging is void
         return res
     np.random.seed(rng.randrange(2 ** 31))
     np.random.choice = w_choice
@@ -135,6 +140,17 @@ def tourn_case(ctx, rep, rng, lines, meta):
     rep.count("tournament_size", min(size, 6))
     if len(out) != target:
         rep.violate(f"tournament returned {len(out)} winners for target {target}", "C08:tournament-count", case)
+    if not protocol["ok"] or len(samples) != len(out):
+        rep.disagree("the tournament no longer draws its members with np.random.choice(population, size, replace=False) once per winner "
+                     "(the model's draw protocol)", case)
+        # draw-independent oracle: membership, and a necessary condition for minimality (a least member of a duplicate-free
+        # tournament of k out of n has at most n - k population members strictly better than itself)
+        for w in out:
+            if not any(m.values == w.values and (m.key == w.key or (nan(m.key) and nan(w.key))) for m in pop) or any(w is c for c in pop):
+                rep.violate("tournament winner is not a copy of a member of the population", "C08:tournament-member", case)
+            if not nan(w.key) and sum(1 for m in pop if (not nan(m.key)) and m.key < w.key) > len(pop) - size:
+                rep.violate("tournament winner cannot be a least-fitness member of any tournament of this size", "C08:tournament-not-minimal", case)
+        return
     for w, s in zip(out, samples):
         members = [pop[i] for i in s]
         if len(set(s)) != len(s):
